@@ -73,3 +73,35 @@ package redisemu
 //@ ensures internal [C05] count: !wrongType ==> output.data == respInt(count)
 //@ ensures internal [C05] wrongtype: wrongType ==> output.data == wrongTypeError
 //@ ensures [C05,C06] readonly: !mutated
+
+// C07: EXPIRE / PEXPIRE / EXPIREAT refuse a time that does not fit 64-bit
+// milliseconds (redis: "invalid expire time"), without touching the key; the
+// arithmetic on the accepted values does not wrap (safety obligations).
+//@ func fnExpire
+//@ prop C07
+//@ mode int
+//@ include thinhandler
+//@ ensures [C07] huge.refused: old(istype(args["seconds"], int64) && (unbox(args["seconds"], int64) > 9223372036854775 || unbox(args["seconds"], int64) < -9223372036854775)) ==> istype(output.data, respErrorString) && !mutated
+
+//@ func fnExpireAt
+//@ prop C07
+//@ mode int
+//@ include thinhandler
+//@ ensures [C07] huge.refused: old(istype(args["unix-time-seconds"], int64) && (unbox(args["unix-time-seconds"], int64) > 9223372036854775 || unbox(args["unix-time-seconds"], int64) < -9223372036854775)) ==> istype(output.data, respErrorString) && !mutated
+
+//@ func fnPExpire
+//@ prop C07
+//@ mode int
+//@ include thinhandler
+// (the refusal bound depends on the clock; what is proved is that the accepted sum does not wrap: safety.overflow(nowMs + ttl))
+
+// C18: GETBIT reads bit `offset` of the big-endian bit array (0 beyond the end
+// or on a missing key); an offset outside 0..2^32-1 is refused
+//@ func fnGetBit
+//@ prop C18
+//@ include thinhandler
+//@ ensures [C18] offset.range: old(istype(args["offset"], int64) && (unbox(args["offset"], int64) < 0 || unbox(args["offset"], int64) >= 4294967296)) ==> istype(output.data, respErrorString)
+//@ ensures internal [C18] bit: bit64 >= 0 && bit64 < 4294967296 && ve == VALUE_EXISTS && int(bit64) < len(strBytes)*8 ==> output.data == respInt(ite(bpBit(strBytes, int(bit64)), 1, 0))
+//@ ensures internal [C18] beyond: bit64 >= 0 && bit64 < 4294967296 && ve == VALUE_EXISTS && int(bit64) >= len(strBytes)*8 ==> output.data == respInt(0)
+//@ ensures internal [C18] missing: bit64 >= 0 && bit64 < 4294967296 && ve == VALUE_DOESNT_EXIST ==> output.data == respInt(0)
+//@ ensures [C18,C06] readonly: !mutated
